@@ -97,7 +97,11 @@ impl<'a> RegExp<'a> {
     fn regex_matches_all_test_cases(regex: &Regex, test_cases: &[String]) -> bool {
         test_cases
             .iter()
-            .all(|test_case| regex.find_iter(test_case).count() == 1)
+            .all(|test_case| {
+                regex
+                    .find(test_case)
+                    .map_or(false, |it| it.start() == 0 && it.end() == test_case.len())
+            })
     }
 
     fn sort(test_cases: &mut Vec<String>) {
